@@ -1130,8 +1130,9 @@ impl Walrus {
             }
         }
 
-        // 5) Commit progress (optional)
-        if entries_parsed > 0 {
+        // 5) Commit progress (optional). Offset-addressed reads are stateless: they never
+        // move the topic's shared cursor (in AtLeastOnce mode they used to).
+        if entries_parsed > 0 && start_offset.is_none() {
             enum PersistTarget {
                 Tail { blk_id: u64, off: u64 },
                 Sealed { idx: u64, off: u64 },
